@@ -62,7 +62,7 @@ class BufferAPI
         stride[0] = atomicSize() * FixedArrayWidth<T>::value * interleave;
         for (int d=1; d<dimensions; d++)
         {
-            shape[d]  = FixedArrayWidth<T>::value * interleave;
+            shape[d]  = FixedArrayWidth<T>::value;  // the interleave is in stride[0] only
             stride[d] = atomicSize();
         }
     }
